@@ -68,7 +68,7 @@ impl C06 {
                     self.rep.violate(&format!("C06|accepts-changed-transaction-set|apply_block|{}", what), format!("a block whose transaction set was altered ({}) was accepted", what), wit);
                     return;
                 }
-                let action_must_reject = what == "action-changed:destination" || what == "action-added" || what == "action-dropped";
+                let action_must_reject = what == "action-changed:destination" || what == "action-added" || what == "action-dropped" || what == "action-changed:delta,specified-step-differs";
                 if action_must_reject {
                     // the statement says outright that changing the proposer action makes the block rejected; a
                     // changed destination, or adding/dropping the action, always changes what a correct
@@ -238,9 +238,21 @@ impl Monitor for C06 {
         };
         muts.push((if blk.proposer_action.is_none() { "action-added" } else { "action-dropped" }.to_string(), b));
         if let Some(a) = blk.proposer_action {
-            let mut b = blk.clone();
-            b.proposer_action = Some(ProposerAction { fee_multiplier_delta: a.fee_multiplier_delta.wrapping_add(1), reward_dest: a.reward_dest });
-            muts.push(("action-changed:delta".into(), b));
+            // the delta is not in the header, its effect is: where the specified step (C17's exact formula) differs for
+            // the two deltas, the altered block cannot be the correct successor
+            let m = parent.header().fee_multiplier;
+            let tip901 = match blk.header.network {
+                NetID::Mainnet => ev.height >= 42_700,
+                NetID::Testnet => ev.height >= 500,
+                _ => true,
+            };
+            let stepped = |d: i8| crate::mon::c17::expected(m, d, tip901).unwrap_or_default();
+            for d2 in [a.fee_multiplier_delta.wrapping_add(1), a.fee_multiplier_delta.wrapping_sub(1)] {
+                let mut b = blk.clone();
+                b.proposer_action = Some(ProposerAction { fee_multiplier_delta: d2, reward_dest: a.reward_dest });
+                let differs = stepped(a.fee_multiplier_delta) != stepped(d2) && m <= (1u128 << 100);
+                muts.push((if differs { "action-changed:delta,specified-step-differs" } else { "action-changed:delta" }.to_string(), b));
+            }
             let mut b = blk.clone();
             b.proposer_action = Some(ProposerAction { fee_multiplier_delta: a.fee_multiplier_delta, reward_dest: w.owners[2].addr_legacy });
             muts.push(("action-changed:destination".into(), b));
